@@ -80,3 +80,17 @@ package v1alpha1
 //@   ensures (in == nil) == (result == nil)
 //@   ensures in != nil ==> result.Parallelism == in.Parallelism && result.MaxAttempts == in.MaxAttempts && result.RetryDelaySeconds == in.RetryDelaySeconds
 //@        && result.TaskPendingTimeoutSeconds == in.TaskPendingTimeoutSeconds && result.ForbidTaskForceDeletion == in.ForbidTaskForceDeletion
+
+// JobConfig.DeepCopy (generated): same identity, schedule and status values; pointers are fresh copies
+//@ pure optNs(t *metav1.Time) Int = t == nil ? ns(zero(time.Time)) : ns(t.Time)
+//@ extern func JobConfig.DeepCopy
+//@   params in
+//@   fresh result
+//@   ensures (in == nil) == (result == nil)
+//@   ensures in != nil ==> result.Name == in.Name && result.Namespace == in.Namespace && result.UID == in.UID && result.ResourceVersion == in.ResourceVersion
+//@   ensures in != nil ==> (result.Spec.Schedule == nil) == (in.Spec.Schedule == nil)
+//@        && (in.Spec.Schedule != nil ==> fresh(result.Spec.Schedule) && result.Spec.Schedule.Disabled == in.Spec.Schedule.Disabled && (result.Spec.Schedule.Cron == nil) == (in.Spec.Schedule.Cron == nil))
+//@   ensures in != nil ==> result.Status.State == in.Status.State && result.Status.Active == in.Status.Active && result.Status.Queued == in.Status.Queued
+//@        && optNs(result.Status.LastScheduled) == optNs(in.Status.LastScheduled) && optNs(result.Status.LastExecuted) == optNs(in.Status.LastExecuted)
+//@        && (result.Status.LastScheduled == nil) == (in.Status.LastScheduled == nil) && (result.Status.LastExecuted == nil) == (in.Status.LastExecuted == nil)
+//@        && (in.Status.LastScheduled != nil ==> fresh(result.Status.LastScheduled)) && (in.Status.LastExecuted != nil ==> fresh(result.Status.LastExecuted))
